@@ -158,7 +158,7 @@ class Interp:
                 return
             elif isinstance(s, ast.Expr) and isinstance(s.value, ast.Constant):
                 continue
-            elif isinstance(s, (ast.Pass, ast.Assert)):
+            elif isinstance(s, (ast.Pass, ast.Assert, ast.Import, ast.ImportFrom)) or U.is_inert_output(s) or U.is_raise_guard(s):
                 continue        # an assertion either holds or ends the step with an exception: the values on the normal path are unchanged
             else:
                 raise AnalysisError(f'statement kind {type(s).__name__} outside the straight-line iterator idiom')
